@@ -60,6 +60,7 @@ def gen_scenario(rng, profile=None):
         scn["delete_old_all"] = p.get("delete_old_all", rng.random() < 0.5)
     scn["plan"] = p.get("plan") or [{"inp": "infretis.toml", "steps": steps}]
     scn["keep_aux"] = p.get("keep_aux", rng.random() < 0.15)    # output.keep_traj_fnames = [".aux"]
+    scn["stale_data_file"] = p.get("stale_data_file", rng.random() < 0.15)
     if scn["engine"] == "turtlemd":
         scn["keep_aux"] = False
         # the repository's double-well example: 8 interfaces, real TurtleMD integrators
@@ -142,11 +143,22 @@ def build_config(scn):
     return cfg
 
 
+def stale_data_content():
+    txt = "# ======\n# \txxx\tlen\tmax OP\t\t000\t001\n# ======\n"
+    for pn in range(0, 6):
+        txt += f"\t{pn:3.0f}\t    5\t 1.00000\t----\t1.0\t----\t1.0\t\n"
+    return txt
+
+
 def build_rundir(scn, rundir):
     """Create infretis.toml and load/<i>/ initial paths in rundir."""
     os.makedirs(rundir, exist_ok=True)
     if scn["engine"] == "turtlemd":
         return build_rundir_turtle(scn, rundir)
+    if scn.get("stale_data_file"):
+        # the directory already holds the data file of an earlier run: this run writes infretis_data_1.txt
+        with open(os.path.join(rundir, "infretis_data.txt"), "w") as fh:
+            fh.write(stale_data_content())
     cfg = build_config(scn)
     if scn.get("abs_load_dir"):
         cfg["simulation"]["load_dir"] = os.path.join(os.path.abspath(rundir), "load")
